@@ -45,7 +45,8 @@ func zzEncCall(e *Encoder, m *zzspec.EncModel, step int, strLen, rawLen int) (er
 //
 // prelude selects a concrete mid-state built by accepted calls before the symbolic ones:
 // 0 none; 1 {"a":7 (name expected next); 2 [{"a" (value expected, nested);
-// 3 {"a":[ ; 4 {"a":7,"b":{"a":7 ; 5 [7,
+// 3 {"a":[ ; 4 {"a":7,"b":{"a":7 ; 5 [7, ; 6 [{<600 x L>:7,<600 x M>:7,"id":7}  (an object whose
+// names exceed 1 KiB was closed: the next object at that depth re-uses its namespace slot)
 func VerifC06Seq(prelude, k, strLen, rawLen int, allowDup, allowInvalid bool) {
 	w := new(zzSink)
 	e := NewEncoder(w, AllowDuplicateNames(allowDup), AllowInvalidUTF8(allowInvalid))
@@ -89,6 +90,25 @@ func VerifC06Seq(prelude, k, strLen, rawLen int, allowDup, allowInvalid bool) {
 	case 5:
 		pre(BeginArray)
 		pre(Uint(7))
+	case 6:
+		long := func(c byte) string {
+			b := make([]byte, 600)
+			for i := range b {
+				b[i] = c
+			}
+			return string(b)
+		}
+		pre(BeginArray)
+		pre(BeginObject)
+		pre(String(long('L')))
+		pre(Uint(7))
+		pre(String(long('M')))
+		pre(Uint(7))
+		pre(String("id"))
+		pre(Uint(7))
+		if err := e.WriteToken(EndObject); err != nil || !m.End(true) {
+			vrt.Fail("C06/seq/prelude")
+		}
 	}
 	for step := 0; step < k; step++ {
 		err, ok := zzEncCall(e, m, step, strLen, rawLen)
